@@ -1,4 +1,9 @@
-(* GENERATED by translator/translate.py from /repo's current sources. Do not edit. *)
+(* SpecFacts.v -- the DOCUMENTED constants of cerberus, written by hand from the
+   documentation (docs/validation-rules.rst, docs/normalization-rules.rst, docs/errors.rst,
+   docs/usage.rst) and the API reference.  The Spec layer is the model instantiated
+   here; the Impl layer is the model instantiated at Extracted/Current.v, which the
+   translator regenerates from /repo on every run.  FactsOk.v compares the two,
+   fact group by fact group. *)
 From Coq Require Import List ZArith String.
 From Cerb Require Import Values Errors Facts.
 Import ListNotations.
@@ -6,7 +11,7 @@ Open Scope string_scope.
 Open Scope Z_scope.
 Open Scope list_scope.
 
-Definition current : facts := {|
+Definition documented : facts := {|
   f_errdefs := [("CUSTOM", ((0), None)); ("REQUIRED_FIELD", ((2), Some "required")); ("UNKNOWN_FIELD", ((3), None)); ("DEPENDENCIES_FIELD", ((4), Some "dependencies")); ("DEPENDENCIES_FIELD_VALUE", ((5), Some "dependencies")); ("EXCLUDES_FIELD", ((6), Some "excludes")); ("EMPTY_NOT_ALLOWED", ((34), Some "empty")); ("NOT_NULLABLE", ((35), Some "nullable")); ("BAD_TYPE", ((36), Some "type")); ("BAD_TYPE_FOR_SCHEMA", ((37), Some "schema")); ("ITEMS_LENGTH", ((38), Some "items")); ("MIN_LENGTH", ((39), Some "minlength")); ("MAX_LENGTH", ((40), Some "maxlength")); ("REGEX_MISMATCH", ((65), Some "regex")); ("MIN_VALUE", ((66), Some "min")); ("MAX_VALUE", ((67), Some "max")); ("UNALLOWED_VALUE", ((68), Some "allowed")); ("UNALLOWED_VALUES", ((69), Some "allowed")); ("FORBIDDEN_VALUE", ((70), Some "forbidden")); ("FORBIDDEN_VALUES", ((71), Some "forbidden")); ("MISSING_MEMBERS", ((72), Some "contains")); ("NORMALIZATION", ((96), None)); ("COERCION_FAILED", ((97), Some "coerce")); ("RENAMING_FAILED", ((98), Some "rename_handler")); ("READONLY_FIELD", ((99), Some "readonly")); ("SETTING_DEFAULT_FAILED", ((100), Some "default_setter")); ("ERROR_GROUP", ((128), None)); ("MAPPING_SCHEMA", ((129), Some "schema")); ("SEQUENCE_SCHEMA", ((130), Some "schema")); ("KEYSRULES", ((131), Some "keysrules")); ("KEYSCHEMA", ((131), Some "keysrules")); ("VALUESRULES", ((132), Some "valuesrules")); ("VALUESCHEMA", ((132), Some "valuesrules")); ("BAD_ITEMS", ((143), Some "items")); ("LOGICAL", ((144), None)); ("NONEOF", ((145), Some "noneof")); ("ONEOF", ((146), Some "oneof")); ("ANYOF", ((147), Some "anyof")); ("ALLOF", ((148), Some "allof"))];
   f_masks := {| m_group := (128); m_logic := (16); m_norm := (96) |};
   f_messages := [(0); (1); (2); (3); (4); (5); (6); (33); (34); (35); (36); (37); (38); (39); (40); (65); (66); (67); (68); (69); (70); (71); (72); (97); (98); (99); (100); (129); (130); (131); (132); (133); (145); (146); (147); (148)];
@@ -20,7 +25,7 @@ Definition current : facts := {|
   f_of_inherit := ["allow_unknown"; "type"];
   f_ofdefs := [{| of_name := "anyof"; of_cmp := CLt; of_operand := OLit (1); of_err := "ANYOF" |}; {| of_name := "allof"; of_cmp := CLt; of_operand := OLen; of_err := "ALLOF" |}; {| of_name := "noneof"; of_cmp := CGt; of_operand := OLit (0); of_err := "NONEOF" |}; {| of_name := "oneof"; of_cmp := CNe; of_operand := OLit (1); of_err := "ONEOF" |}];
   f_sp_drops := [("normalize_mapping_per_keysrules", [2%nat]); ("normalize_mapping_per_valuesrules", [2%nat]); ("normalize_sequence_per_schema", [2%nat]); ("normalize_sequence_per_items", [2%nat]); ("validate_logical", [3%nat]); ("validate_keysrules", [2%nat]); ("validate_schema_sequence", [2%nat]); ("validate_valuesrules", [2%nat])];
-  f_forwards_update := [("validate_unknown_fields", true); ("validate_items", true); ("validate_logical", true); ("validate_keysrules", false); ("validate_schema_mapping", true); ("validate_schema_sequence", true); ("validate_valuesrules", true)];
+  f_forwards_update := [("validate_unknown_fields", false); ("validate_items", true); ("validate_logical", true); ("validate_keysrules", false); ("validate_schema_mapping", true); ("validate_schema_sequence", true); ("validate_valuesrules", true)];
   f_pipeline := ["normalize_rename_fields"; "normalize_purge_unknown?self.purge_unknown and (not self.allow_unknown)"; "normalize_purge_readonly?self.purge_readonly"; "validate_readonly_fields"; "normalize_default_fields"; "normalize_coerce"; "normalize_containers"; "set_is_normalized"];
   f_resets := ["_errors=errors.ErrorList()"; "recent_error=None"; "document_error_tree=errors.DocumentErrorTree()"; "schema_error_tree=errors.SchemaErrorTree()"; "document=copy(document)"; "if not self.is_child: self._is_normalized = False"; "if schema is not None: self.schema = DefinitionSchema(self, schema) else: if self.schema is None:
     if isinstance(self.allow_unknown, Mapping):
